@@ -131,7 +131,7 @@ theorem getBinary_guard {x : Coder} (hcap : x.cap = none) {ws : List Nat}
       rw [pushAll_none hcap] at this ⊢
       simpa using this
 
-theorem numWords_eq (hcap : ∀ x : Coder, x.cap = none → True) {x : Coder} (hx : x.cap = none) :
+theorem numWords_eq {x : Coder} (hx : x.cap = none) :
     ∃ ws, intoCompressed c x = some ws ∧ numWords c x = ws.length ∧
       numBits c x = c.W * ws.length ∧ iterCompressed c x = ws.reverse := by
   refine ⟨_, intoCompressed_none hx, ?_, ?_, ?_⟩
